@@ -150,6 +150,8 @@ class FuncScan:
                 r = root_name(val)
                 if isinstance(val, ast.Call) and isinstance(val.func, ast.Name) and val.func.id in ("enumerate", "zip", "list", "tuple", "reversed") and val.args:
                     r = root_name(val.args[0])
+                if isinstance(val, ast.Call) and isinstance(val.func, ast.Name) and val.func.id == "getattr" and val.args:
+                    r = root_name(val.args[0])      # getattr(f, "attr", default): (part of) the field object
                 if isinstance(val, (ast.IfExp,)):
                     r = root_name(val.body)
                 if isinstance(val, ast.BinOp):
@@ -161,6 +163,23 @@ class FuncScan:
                     if not rooted_at_instance:
                         self.fieldish |= tn
                         changed = True
+
+    def container_aliases(self):
+        """local names bound to a container reached THROUGH a field object: `x = getattr(f, "_reg", ..)`, `y = x[k]`"""
+        out = set()
+        changed = True
+        while changed:
+            changed = False
+            for tgt, val in self._assignments():
+                if not isinstance(tgt, ast.Name) or tgt.id in out:
+                    continue
+                via_getattr = isinstance(val, ast.Call) and isinstance(val.func, ast.Name) and val.func.id == "getattr" \
+                    and val.args and root_name(val.args[0]) in self.fieldish
+                via_alias = isinstance(val, ast.Subscript) and isinstance(val.value, ast.Name) and val.value.id in out
+                if via_getattr or via_alias:
+                    out.add(tgt.id)
+                    changed = True
+        return out
 
     def is_field_expr(self, e):
         r = root_name(e)
@@ -205,6 +224,20 @@ def _mentions_attr(val, obj, attr):
             return True
         if isinstance(x, ast.Call) and isinstance(x.func, ast.Name) and x.func.id == "getattr" and len(x.args) >= 2 \
                 and _const_str(x.args[1]) == attr and ast.unparse(x.args[0]) == o:
+            return True
+    return False
+
+
+def _guarded_by_membership(fn, stmt, name):
+    """is the store `name[k] = v` preceded in the function by a test of `name` (`k in name`, `name.get(k ..)`)?"""
+    for n in ast.walk(fn):
+        if getattr(n, "lineno", 10 ** 9) > stmt.lineno:
+            continue
+        if isinstance(n, ast.Compare) and any(isinstance(o, (ast.In, ast.NotIn)) for o in n.ops) and \
+                any(isinstance(c, ast.Name) and c.id == name for c in n.comparators):
+            return True
+        if isinstance(n, ast.Call) and isinstance(n.func, ast.Attribute) and n.func.attr == "get" and \
+                isinstance(n.func.value, ast.Name) and n.func.value.id == name:
             return True
     return False
 
@@ -286,6 +319,12 @@ def scan(repo=None):
                             # f.__dict__["a"] = v / vars(f)["a"] = v
                             a = _const_str(t.slice)
                             writes.append((n.lineno, _dict_of(t.value), a if a is not None else "<dynamic>", val))
+                        elif isinstance(t, ast.Subscript) and isinstance(t.value, ast.Name) and t.value.id in fs.fieldish \
+                                and t.value.id not in ("self", "cls") and t.value.id in fs.container_aliases():
+                            # d = getattr(f, "_registry", ..)[k] ... d[h] = v: an entry of a container hanging off a shared Field
+                            writes.append((n.lineno, t.value, "<container>", val))
+                            if _guarded_by_membership(fn, n, t.value.id):
+                                rmw_lines.add(n.lineno)     # `if h not in d: d[h] = v` / `d.get(h) ... d[h] = v`: check-then-act
                         elif isinstance(t, ast.Subscript) and isinstance(t.value, ast.Attribute) and fs.is_field_expr(t.value.value) \
                                 and t.value.attr != "__dict__":
                             # f.attr[k] = v: an entry of a container hanging off a shared Field object
